@@ -3,18 +3,21 @@
 
    [iso s1 s2]: the two engine states are equal up to
      - a renaming of thread identities (a partial bijection hm given as a list of pairs),
-     - per thread a renaming of array-holder identities (a partial bijection m); holders
-       that no variable of the thread reaches are ignored,
+     - a renaming of holder identities, ONE for the whole engine (a partial bijection m):
+       related variables / holder slots hold equal scalars or references of the same kind
+       (dynamic / constant) to related holders, and related holders have the same keys in
+       the same order with related values - so every sharing class of holders, of either
+       kind, across variables, holders and threads is the same on both sides; holders that
+       nothing reaches are ignored,
      - the ORDER of the instance list (any permutation; the loader reverses it).
    Everything else is kept exactly: the timer list in order with its due times, the threads
-   of every instance in chain order, per thread the code position, the variable list in
-   order with equal scalars, which variables share a holder, the holders' contents, the
-   timer's time and dirty flag, the clocks.  The fresh-identity counters may differ; they
-   only have to lie above every identity in use (bounded).
+   of every instance in chain order, per thread the code position and the variable list in
+   order, the timer's time and dirty flag, the clocks.  The fresh-identity counters may
+   differ; they only have to lie above every identity in use (bounded).
 
    [wf s]: a state between two host operations: every live thread (the members of the
    instance chains, no thread in two chains or twice in one) waits in the timer exactly
-   once, identities in use are below the counters. *)
+   once, identities in use (in variables and inside holders) are below the counters. *)
 From Coq Require Import NArith ZArith List Bool Permutation.
 From Morfuse Require Import C09.Model.
 Import ListNotations.
@@ -24,14 +27,18 @@ Definition vrel (m : list (N * N)) (v1 v2 : value) : Prop :=
   match v1, v2 with
   | VScal a, VScal b => a = b
   | VArr r1, VArr r2 => In (r1, r2) m
+  | VCon r1, VCon r2 => In (r1, r2) m
   | _, _ => False
   end.
 
 Definition env_rel (m : list (N * N)) (e1 e2 : list (N * value)) : Prop :=
   Forall2 (fun a b => fst a = fst b /\ vrel m (snd a) (snd b)) e1 e2.
 
+Definition holder_rel (m : list (N * N)) (o1 o2 : holder) : Prop :=
+  Forall2 (fun a b => fst a = fst b /\ vrel m (snd a) (snd b)) o1 o2.
+
 Definition heap_rel (m : list (N * N)) (h1 h2 : list (N * holder)) : Prop :=
-  forall r1 r2, In (r1, r2) m -> heap_get r1 h1 = heap_get r2 h2.
+  forall r1 r2, In (r1, r2) m -> holder_rel m (heap_get r1 h1) (heap_get r2 h2).
 
 (* a partial bijection *)
 Definition pbij (m : list (N * N)) : Prop :=
@@ -40,16 +47,11 @@ Definition pbij (m : list (N * N)) : Prop :=
 Definition bounded (m : list (N * N)) (n1 n2 : N) : Prop :=
   forall a b, In (a, b) m -> a < n1 /\ b < n2.
 
-Definition data_rel (e1 : list (N * value)) (h1 : list (N * holder)) (n1 : N)
-           (e2 : list (N * value)) (h2 : list (N * holder)) (n2 : N) : Prop :=
-  exists m, env_rel m e1 e2 /\ heap_rel m h1 h2 /\ pbij m /\ bounded m n1 n2.
+Definition thr_rel (hm m : list (N * N)) (t1 t2 : thread) : Prop :=
+  In (th t1, th t2) hm /\ tcode t1 = tcode t2 /\ env_rel m (tenv t1) (tenv t2).
 
-Definition thr_rel (hm : list (N * N)) (t1 t2 : thread) : Prop :=
-  In (th t1, th t2) hm /\ tcode t1 = tcode t2 /\
-  data_rel (tenv t1) (theap t1) (tnext t1) (tenv t2) (theap t2) (tnext t2).
-
-Definition elem_rel (hm : list (N * N)) (e1 e2 : elem) : Prop :=
-  etime e1 = etime e2 /\ thr_rel hm (ethr e1) (ethr e2).
+Definition elem_rel (hm m : list (N * N)) (e1 e2 : elem) : Prop :=
+  etime e1 = etime e2 /\ thr_rel hm m (ethr e1) (ethr e2).
 
 Definition chain_rel (hm : list (N * N)) (c1 c2 : list N) : Prop :=
   Forall2 (fun a b => In (a, b) hm) c1 c2.
@@ -57,22 +59,31 @@ Definition chain_rel (hm : list (N * N)) (c1 c2 : list N) : Prop :=
 Definition insts_rel (hm : list (N * N)) (i1 i2 : list (list N)) : Prop :=
   exists i1', Permutation i1 i1' /\ Forall2 (chain_rel hm) i1' i2.
 
-Definition st_rel (hm : list (N * N)) (s1 s2 : st) : Prop :=
-  Forall2 (elem_rel hm) (elems s1) (elems s2) /\
+Definition st_rel (hm m : list (N * N)) (s1 s2 : st) : Prop :=
+  Forall2 (elem_rel hm m) (elems s1) (elems s2) /\
   insts_rel hm (insts s1) (insts s2) /\
+  heap_rel m (heap s1) (heap s2) /\
   mtime s1 = mtime s2 /\ dirty s1 = dirty s2 /\ scaled s1 = scaled s2 /\
   lastclk s1 = lastclk s2 /\ startclk s1 = startclk s2 /\ clock s1 = clock s2 /\
-  pbij hm /\ bounded hm (nexth s1) (nexth s2).
+  pbij hm /\ bounded hm (nexth s1) (nexth s2) /\
+  pbij m /\ bounded m (nextr s1) (nextr s2).
 
-Definition iso (s1 s2 : st) : Prop := exists hm, st_rel hm s1 s2.
+Definition iso (s1 s2 : st) : Prop := exists hm m, st_rel hm m s1 s2.
 
 (* ---------------------------------------------------------------- saveable states *)
 Definition eh (e : elem) : N := th (ethr e).
 
-Definition thr_ok (t : thread) : Prop := forall x r, In (x, VArr r) (tenv t) -> r < tnext t.
+Definition ref_lt (v : value) (n : N) : Prop :=
+  match v with VScal _ => True | VArr r | VCon r => r < n end.
+
+Definition env_ok (env : list (N * value)) (n : N) : Prop := forall x v, In (x, v) env -> ref_lt v n.
+
+Definition heap_ok (hp : list (N * holder)) (n : N) : Prop :=
+  forall r k v, In (k, v) (heap_get r hp) -> ref_lt v n.
 
 Definition wf (s : st) : Prop :=
   NoDup (concat (insts s)) /\
   Permutation (concat (insts s)) (map eh (elems s)) /\
   (forall h, In h (concat (insts s)) -> h < nexth s) /\
-  Forall (fun e => thr_ok (ethr e)) (elems s).
+  Forall (fun e => env_ok (tenv (ethr e)) (nextr s)) (elems s) /\
+  heap_ok (heap s) (nextr s).
